@@ -174,6 +174,8 @@ def chain_script(d, rng, pay, forms, start="new", finish="unpack"):
     for v in range(1, nv):
         form = forms[(v - 1) % len(forms)]
         full = form.startswith("full")
+        if form == "full_simple" and rng.random() < 0.3:
+            form = "vec"         # the same conversion through convert_vec_in_place on a vector of records
         ops.append({"op": "convert_" + form, "slot": 1, "place": place(rng), "vals": vals_for(pay, plus_fields(d, v + 1, full))})
         ops.append({"op": "dump", "slot": 1})
         if rng.random() < 0.3:
@@ -298,6 +300,93 @@ def scripts_for(d, rng, tier):
         if "serde" in d["fragments"]:
             res += serde_scripts(d, rng, pay, v, tier == "thorough")
     return res
+
+
+# ----------------------------------------------------------------------------- TLC-generated definitions and scripts
+
+KIND_KEY = {"T": ("Tracked", False), "Pu": ("P4", True), "P": ("P4", False), "O": ("Odd3", True), "Z": ("Zst", False),
+            "ZD": ("ZstDrop", False), "D3": ("TrackedOdd", False), "B": ("Str", False), "W": ("Over16", True)}
+
+
+def model_behaviours(tier, rng):
+    """MCRecordReplay: every life of a record on every small definition of the model.  Returns
+    {params-json: {"params", "offs", "behaviours": [ops...]}} for a sample of the definitions."""
+    r = run_tlc("MCRecordReplay", "MCRecordReplay.cfg", workers=1, timeout=3000, heap="8g")
+    if not r["ok"]:
+        raise ToolError("MCRecordReplay failed:\n" + r["out"][-3000:])
+    groups = {}
+    n = 0
+    for line in r["out"].splitlines():
+        m = re.match(r'<<"REPLAY", "(.*)">>\s*$', line)
+        if not m:
+            continue
+        js = json.loads(json.loads('"' + m.group(1) + '"'))
+        pr = js["params"]
+        if not pr["k2"] and not pr["rm"]:
+            continue        # the real builder creates no second variant without a change
+        n += 1
+        key = json.dumps(pr, sort_keys=True)
+        g = groups.setdefault(key, {"params": pr, "offs": js["offs"], "behaviours": []})
+        g["behaviours"].append(js["ops"])
+    keys = sorted(groups)
+    k = 5 if tier == "quick" else 70
+    if len(keys) > k:
+        keys = rng.sample(keys, k)
+    return {kk: groups[kk] for kk in keys}, {"states": r["states"], "distinct": r["distinct"], "behaviours": n,
+                                             "definitions": len(groups), "definitions_used": len(keys)}
+
+
+def model_definition(pr, idx):
+    calls = []
+    names = {}
+    i = 0
+    for kname in pr["k1"]:
+        i += 1
+        key, un = KIND_KEY[kname]
+        names[i] = "m%d" % i
+        calls.append(A(names[i], key, un))
+    calls.append(C(pr["s1"]))
+    for x in pr["rm"]:
+        calls.append(R(names[x]))
+    for kname in pr["k2"]:
+        i += 1
+        key, un = KIND_KEY[kname]
+        names[i] = "m%d" % i
+        calls.append(A(names[i], key, un))
+    calls.append(C(pr["s2"]))
+    return {"name": "model%d" % idx, "fragments": [], "calls": calls, "resolver": "host", "model_params": pr}
+
+
+def model_script(d, ops, pay, rng):
+    out = []
+    v = None
+    for o in ops:
+        if o["op"] == "new":
+            v = o["v"]
+            fs = fields(d, v)
+            if o["full"]:
+                out.append({"op": "new", "slot": 1, "v": v, "place": place(rng), "vals": vals_for(pay, fs)})
+            else:
+                out.append({"op": "new_uninit", "slot": 1, "v": v, "place": place(rng),
+                            "vals": vals_for(pay, [f for f in fs if not f["uninit"]])})
+        elif o["op"] == "set":
+            f = [x for x in fields(d, v) if x["fid"] == o["f"]]
+            if not f:
+                return None
+            out.append({"op": "set", "slot": 1, "f": o["f"], "vals": vals_for(pay, f)})
+        elif o["op"] == "convert":
+            form = ("full" if o["full"] else "uninit") + "_" + ("out" if o["out"] else "simple")
+            out.append({"op": "convert_" + form, "slot": 1, "place": place(rng),
+                        "vals": vals_for(pay, plus_fields(d, v + 1, o["full"]))})
+            v += 1
+        elif o["op"] in ("drop", "unpack"):
+            out.append({"op": o["op"], "slot": 1})
+            v = None
+        if v is not None:
+            out.append({"op": "dump", "slot": 1})
+    if v is not None:
+        out.append({"op": "drop", "slot": 1})
+    return out
 
 
 # ----------------------------------------------------------------------------- stages
@@ -458,6 +547,13 @@ def pipeline(tier, seed):
         nrandom = 10 if tier == "quick" else 120
         for i in range(nrandom):
             defs.append(random_definition(rng, i))
+        log("lab: S2 TLC replay generation (MCRecordReplay)")
+        mgroups, res["replay_gen"] = model_behaviours(tier, rng)
+        model_of = {}
+        for kk in sorted(mgroups):
+            md = model_definition(mgroups[kk]["params"], len(model_of) + 1)
+            model_of[md["name"]] = mgroups[kk]
+            defs.append(md)
         for i, d in enumerate(defs):
             d["did"] = i + 1
         log("lab: generating %d definitions through the real builder and generator" % len(defs))
@@ -502,9 +598,31 @@ def pipeline(tier, seed):
         if errs:
             raise ToolError("the lab still does not compile after dropping failing definitions:\n" + "\n".join(errs.values())[-4000:])
         scripts = []
+        drift = []
+        nmodel = 0
         for did, d in sorted(built.items()):
+            name = defs[did - 1]["name"]
+            if name in model_of:
+                # behaviours enumerated by TLC on this very definition; the model's offsets are
+                # compared with the real builder's (S5: drift, never a verdict)
+                g = model_of[name]
+                real = {}
+                for vv in d["variants"]:
+                    for f in vv["fields"]:
+                        real[f["fid"]] = f["off"]
+                if any(real.get(i + 1, o) != o for i, o in enumerate(g["offs"]) if o != 1000000):
+                    drift.append(name)
+                pay = Pay()
+                for ops in g["behaviours"]:
+                    sc = model_script(d, ops, pay, rng)
+                    if sc:
+                        nmodel += 1
+                        scripts.append({"sid": len(scripts) + 1, "did": did, "capsel": rng.choice([0, 0, 1, 2]), "ops": sc})
+                continue
             for ops in scripts_for(d, rng, tier):
                 scripts.append({"sid": len(scripts) + 1, "did": did, "capsel": rng.choice([0, 0, 1, 2]), "ops": ops})
+        res["model_scripts"] = nmodel
+        res["model_drift"] = drift
         res["scripts"] = len(scripts)
         used = {s_["did"] for s_ in scripts}
         res["autotrait"] = {
